@@ -1,5 +1,6 @@
 import TTProofs.Props.C12
 import TTProofs.Lemmas.C12_CoalInstances
+import TTProofs.Lemmas.C12_SoftDeriv
 /-!
 # C12 (companion) — gradients of the C08 / C20 models that `Props/C12.lean` did not cover
 
@@ -323,5 +324,82 @@ example : HasDerivAt
   have h := hasDerivAt_gammaIntegrated_field [1, -2, 3] (some [1 / 2, 4]) 5 2 3 0 0 1 (by simp) (by norm_num)
     (by intro l hl v hv; simp at hl; subst hl; simp at hv; rcases hv with rfl | rfl <;> norm_num)
   simpa using h
+
+/-! ## relaxed skygrid (`SoftPiecewiseConstantCoalescentGrid` with a temperature, model `TT.C08.softLogProb`) in `θ` -/
+
+/-- closed form of `∂/∂θ_k`: the relaxed events, their soft lineage counts and the piece weights do not depend on `θ`;
+`θ̃(t) = Σ_j w_j(t) θ_j`, so `∂(−A/θ̃)/∂θ_k = A w_k/θ̃²` and `∂(−log θ̃)/∂θ_k = −w_k/θ̃` -/
+noncomputable def softGradTheta (τ : ℝ) (θ grid heights : List ℝ) (k : ℕ) : ℝ :=
+  ((C08.zip3 (C08.cumsum (C08.softSorted τ heights grid).2).dropLast (C08.diffs (C08.softSorted τ heights grid).1)
+      (C08.softSorted τ heights grid).1.tail).map fun p =>
+        (p.1 * (p.1 - 1) / 2 * p.2.1) * (C08.pieceWeights τ grid p.2.2).getD k 0 / (C08.softTheta τ θ grid p.2.2) ^ 2).sum
+    - ((heights.drop (C08.taxaCount heights)).map fun c =>
+        (C08.pieceWeights τ grid c).getD k 0 / C08.softTheta τ θ grid c).sum
+
+theorem list_sum_map_neg {ι : Type} (f : ι → ℝ) : ∀ l : List ι, (l.map fun i => -(f i)).sum = -(l.map f).sum
+  | [] => by simp
+  | i :: l => by simp only [List.map_cons, List.sum_cons, list_sum_map_neg f l]; ring
+
+/-- **Relaxed skygrid, derivative in each `θ_k`** — every temperature, every input (ties included: nothing is sorted
+by `θ`), `θ_j > 0`, one `θ` per piece. -/
+theorem hasDerivAt_softLogProb_theta (τ : ℝ) (θ grid heights : List ℝ) (k : ℕ) (hk : k < θ.length)
+    (hθ : θ.length = grid.length + 1) (hpos : ∀ b ∈ θ, 0 < b) :
+    HasDerivAt (fun t => C08.softLogProb τ (θ.set k t) grid heights) (softGradTheta τ θ grid heights k) θ[k] := by
+  have hset : θ.set k θ[k] = θ := List.set_getElem_self hk
+  have hth : ∀ s, HasDerivAt (fun t => C08.softTheta τ (θ.set k t) grid s) ((C08.pieceWeights τ grid s).getD k 0) θ[k] :=
+    fun s => C08.hasDerivAt_dot_set (C08.pieceWeights τ grid s) θ k θ[k] hk
+  have hne : ∀ s, C08.softTheta τ (θ.set k θ[k]) grid s ≠ 0 := by
+    intro s; rw [hset]; exact (C08.softTheta_pos τ θ grid s hθ hpos).ne'
+  -- the interval part
+  have hI : HasDerivAt (fun t => -(C08.softIntegral τ (θ.set k t) grid heights))
+      ((C08.zip3 (C08.cumsum (C08.softSorted τ heights grid).2).dropLast (C08.diffs (C08.softSorted τ heights grid).1)
+          (C08.softSorted τ heights grid).1.tail).map fun p =>
+            (p.1 * (p.1 - 1) / 2 * p.2.1) * (C08.pieceWeights τ grid p.2.2).getD k 0
+              / (C08.softTheta τ θ grid p.2.2) ^ 2).sum θ[k] := by
+    have hterm : ∀ p ∈ C08.zip3 (C08.cumsum (C08.softSorted τ heights grid).2).dropLast
+          (C08.diffs (C08.softSorted τ heights grid).1) (C08.softSorted τ heights grid).1.tail,
+        HasDerivAt (fun t => -((p.1 * (p.1 - 1) / 2 * p.2.1) / C08.softTheta τ (θ.set k t) grid p.2.2))
+          ((p.1 * (p.1 - 1) / 2 * p.2.1) * (C08.pieceWeights τ grid p.2.2).getD k 0
+            / (C08.softTheta τ θ grid p.2.2) ^ 2) θ[k] := by
+      intro p _
+      have h := ((hasDerivAt_const θ[k] (p.1 * (p.1 - 1) / 2 * p.2.1)).div (hth p.2.2) (hne p.2.2)).neg
+      rw [hset] at h
+      have heq : -((0 * C08.softTheta τ θ grid p.2.2
+            - p.1 * (p.1 - 1) / 2 * p.2.1 * (C08.pieceWeights τ grid p.2.2).getD k 0) / C08.softTheta τ θ grid p.2.2 ^ 2)
+          = (p.1 * (p.1 - 1) / 2 * p.2.1) * (C08.pieceWeights τ grid p.2.2).getD k 0
+            / (C08.softTheta τ θ grid p.2.2) ^ 2 := by ring
+      rw [heq] at h
+      exact h
+    have hs := C08.hasDerivAt_list_sum _ _ θ[k] _ hterm
+    have hfun : (fun t => -(C08.softIntegral τ (θ.set k t) grid heights))
+        = fun t => ((C08.zip3 (C08.cumsum (C08.softSorted τ heights grid).2).dropLast
+            (C08.diffs (C08.softSorted τ heights grid).1) (C08.softSorted τ heights grid).1.tail).map fun p =>
+              -((p.1 * (p.1 - 1) / 2 * p.2.1) / C08.softTheta τ (θ.set k t) grid p.2.2)).sum := by
+      funext t
+      unfold C08.softIntegral
+      simp only
+      rw [C08.zipWith3_map_third, C08.zipWith3_eq_map_zip3, list_sum_map_neg]
+    rw [hfun]
+    exact hs
+  -- the log terms
+  have hL : HasDerivAt (fun t => C08.softLogs τ (θ.set k t) grid heights)
+      ((heights.drop (C08.taxaCount heights)).map fun c =>
+        (C08.pieceWeights τ grid c).getD k 0 / C08.softTheta τ θ grid c).sum θ[k] := by
+    unfold C08.softLogs
+    simp only [trans_log_real]
+    apply C08.hasDerivAt_list_sum (fun c t => Real.log (C08.softTheta τ (θ.set k t) grid c))
+    intro c _
+    have h := (hth c).log (hne c)
+    rw [hset] at h
+    exact h
+  have h := hI.sub hL
+  unfold softGradTheta
+  exact h
+
+/-- the hypotheses are met: `τ = 1/2`, `θ = (1, 2, 4)`, grid `(1, 3)`, samples 0, 0, 1, coalescences 2, 3; `∂/∂θ₁` -/
+example : HasDerivAt (fun t => C08.softLogProb ((1 : ℝ) / 2) (([1, 2, 4] : List ℝ).set 1 t) [1, 3] [0, 0, 1, 2, 3])
+    (softGradTheta ((1 : ℝ) / 2) [1, 2, 4] [1, 3] [0, 0, 1, 2, 3] 1) (([1, 2, 4] : List ℝ)[1]) :=
+  hasDerivAt_softLogProb_theta ((1 : ℝ) / 2) [1, 2, 4] [1, 3] [0, 0, 1, 2, 3] 1 (by simp) rfl
+    (by intro b hb; simp at hb; rcases hb with rfl | rfl | rfl <;> norm_num)
 
 end TTProps.C12_Coalescent
